@@ -1,6 +1,7 @@
 SPECIFICATION Spec
 CONSTANT Which = "C17"
 CONSTANT TinyLen = 7
+CONSTANT TailLen = 0
 CONSTANT SmallLen = 0
 CONSTANT AsBuilt = {"FilterCutsAtHash"}
 CONSTANT MaxLen = 1
